@@ -1,6 +1,8 @@
 import KM.Model.GoLite
 import KM.Model.GoTypes
 import KM.Gen.GoTotp
+import KM.Gen.GoPwLimit
+import KM.Props.C06Go
 /-! # C14 (and C05, C16) — `validateUserTOTP` as TRANSLATED from the current source (go2lean)
 
 The whole function is translated from /repo's working tree on every run (`KM/Gen/GoTotp.lean`): the 2 s spacing
@@ -252,3 +254,176 @@ example : (KM.Gen.GoTotp.validateUserTOTP exExt 1000 ⟨0, 0, 0, 0⟩ ['u'] 1 12
   decide
 
 end KM.Totp
+
+/-! ## `checkPasswordAttemptLimit`, the whole function (`KM/Gen/GoPwLimit.lean`) -/
+namespace KM.PwLimitGo
+open KM.GoTypes KM.Go
+
+/-- **every password attempt takes a token of the global limiter, and without a token it goes no further** (C14), on the
+translated source: the function asks the limiter exactly once; it returns an error — after writing 429 — exactly when
+the limiter refused, and `checkAuth` (translated: `c06_go_check_auth_admits`, the `limitCheck` effect precedes the
+question to the password backend) returns on that error before the backend is asked. -/
+theorem c14_go_password_limit (allow : Bool) (user : List Char) :
+    KM.Gen.GoPwLimit.checkPasswordAttemptLimit allow user =
+      if allow then (none, [.tokenTaken])
+      else (some "too many password attempts, host: %s user: %s".toList, [.tokenTaken, .fail 429]) := by
+  cases allow <;> rfl
+
+open KM.CheckAuthGo
+
+/-- what a question to the password backend rests on, in a trace -/
+def AfterLimiter (ext : CheckAuthExt) (t : List AuthEffect) : Prop :=
+  ∀ u p, AuthEffect.passwordTried u p ∈ t →
+    ∃ u0 ok, ext.basicAuth = (u0, p, ok) ∧ ext.attemptLimit u0 = none ∧ u = ext.reprocess u0 ∧
+      AuthEffect.limitCheck u0 ∈ t
+
+def NoPw (t : List AuthEffect) : Prop := ∀ u p, AuthEffect.passwordTried u p ∉ t
+
+theorem NoPw.after {ext : CheckAuthExt} {t : List AuthEffect} (h : NoPw t) : AfterLimiter ext t :=
+  fun u p hm => absurd hm (h u p)
+
+theorem NoPw.fail {t : List AuthEffect} (h : NoPw t) (s : Nat) : NoPw (t ++ [AuthEffect.fail s]) := by
+  intro u p hm
+  rcases List.mem_append.mp hm with h1 | h1
+  · exact h u p h1
+  · simp at h1
+
+/-- invariant of the translated `checkAuth` over its whole trace (proved along the structure of the function, like
+`checkAuth_good`) -/
+theorem checkAuth_after_limiter (ext : CheckAuthExt) (method host : List Char) (hasTLS hasChains : Bool)
+    (cookies : List Cookie) (req : Nat) :
+    AfterLimiter ext (KM.Gen.GoCheckAuth.checkAuth ext method host hasTLS hasChains cookies req).2 := by
+  obtain ⟨referer, parseURL, urlHost, kmSigned, ipRestricted, basicAuth, attemptLimit, reprocess, checkPassword, now,
+    getAuthInfo, expired⟩ := ext
+  obtain ⟨bu, bp, bok⟩ := basicAuth
+  obtain ⟨kmU, kmNb, kmErr⟩ := kmSigned
+  obtain ⟨ipU, ipNb, ipUserErr, ipErr⟩ := ipRestricted
+  unfold KM.Gen.GoCheckAuth.checkAuth
+  extract_lets tr0 c0 e1 cfg e2 e3 e4 e5 k2 ad0 ad512 k3 k1 ref tr400 tr401
+  have h2 : ∀ tr, NoPw tr → AfterLimiter ⟨referer, parseURL, urlHost, (kmU, kmNb, kmErr), (ipU, ipNb, ipUserErr, ipErr), (bu, bp, bok),
+      attemptLimit, reprocess, checkPassword, now, getAuthInfo, expired⟩ (k2 tr).2 := by
+    intro tr hn
+    unfold k2
+    rw [cookie_loop]
+    generalize lastNamed "auth_cookie".toList cookies c0 = la
+    dsimp only
+    cases la with
+    | none =>
+      simp only [Option.isNone_none, if_true]
+      by_cases hp : ((2 &&& req) == 0) = true
+      · simp only [hp, if_true]; exact (hn.fail 401).after
+      · simp only [hp]
+        cases bok
+        · simp only [Bool.not_false, if_true]; exact (hn.fail 401).after
+        · simp only [Bool.not_true, Bool.false_eq_true, if_false]
+          by_cases ha : (attemptLimit bu).isSome = true
+          · simp only [ha, if_true]
+            intro u p hm
+            rcases List.mem_append.mp hm with h1 | h1
+            · exact absurd h1 (hn u p)
+            · simp at h1
+          · simp only [ha]
+            have ha' : attemptLimit bu = none := by
+              cases h : attemptLimit bu with
+              | none => rfl
+              | some e => rw [h] at ha; simp at ha
+            have key : ∀ t : List AuthEffect, (∀ u p, AuthEffect.passwordTried u p ∈ t →
+                AuthEffect.passwordTried u p ∈ tr ++ [AuthEffect.limitCheck bu] ++ [AuthEffect.passwordTried (reprocess bu) bp] ∨
+                False) → (∀ x, x ∈ tr ++ [AuthEffect.limitCheck bu] → x ∈ t) →
+                AfterLimiter ⟨referer, parseURL, urlHost, (kmU, kmNb, kmErr), (ipU, ipNb, ipUserErr, ipErr), (bu, bp, true),
+                  attemptLimit, reprocess, checkPassword, now, getAuthInfo, expired⟩ t := by
+              intro t hsub hsup u p hm
+              rcases hsub u p hm with h1 | h1
+              · rcases List.mem_append.mp h1 with h1 | h1
+                · rcases List.mem_append.mp h1 with h1 | h1
+                  · exact absurd h1 (hn u p)
+                  · simp at h1
+                · simp only [List.mem_singleton, AuthEffect.passwordTried.injEq] at h1
+                  obtain ⟨rfl, rfl⟩ := h1
+                  exact ⟨bu, true, rfl, ha', rfl, hsup _ (by simp)⟩
+              · exact h1.elim
+            by_cases he : (checkPassword (reprocess bu) bp).2.isSome = true
+            · simp only [he, if_true]
+              apply key
+              · intro u p hm; left
+                rcases List.mem_append.mp hm with h1 | h1
+                · exact h1
+                · simp at h1
+              · intro x hx; exact List.mem_append_left _ (List.mem_append_left _ hx)
+            · simp only [he]
+              by_cases hv : (checkPassword (reprocess bu) bp).1 = true
+              · simp only [hv, Bool.not_true, Bool.false_eq_true, if_false]
+                apply key
+                · intro u p hm; left; exact hm
+                · intro x hx; exact List.mem_append_left _ hx
+              · have hv' : (checkPassword (reprocess bu) bp).1 = false := by simpa using hv
+                simp only [hv', Bool.not_false, if_true]
+                apply key
+                · intro u p hm; left
+                  rcases List.mem_append.mp hm with h1 | h1
+                  · exact h1
+                  · simp at h1
+                · intro x hx; exact List.mem_append_left _ (List.mem_append_left _ hx)
+    | some c =>
+      simp only [Option.isNone_some, Bool.false_eq_true, if_false, cookieValue]
+      by_cases he : (getAuthInfo c.value).2.isSome = true
+      · simp only [he, if_true]; exact (hn.fail 401).after
+      · simp only [he]
+        by_cases hx : expired (getAuthInfo c.value).1 = true
+        · simp only [hx, if_true]; exact (hn.fail 401).after
+        · simp only [hx]
+          by_cases hlv : (((getAuthInfo c.value).1.AuthType &&& req) == 0) = true
+          · simp only [hlv, if_true]; exact (hn.fail 401).after
+          · simp only [hlv]; exact hn.after
+  have h3 : ∀ ad tr, NoPw tr → AfterLimiter ⟨referer, parseURL, urlHost, (kmU, kmNb, kmErr),
+      (ipU, ipNb, ipUserErr, ipErr), (bu, bp, bok), attemptLimit, reprocess, checkPassword, now, getAuthInfo, expired⟩
+      (k3 (ad, tr)).2 := by
+    intro ad tr hn
+    unfold k3
+    dsimp only
+    by_cases hc : (ad.Username != [] && ad.AuthType &&& req != 0) = true
+    · simp only [hc, if_true]; exact hn.after
+    · simp only [hc, Bool.false_eq_true, if_false]; exact h2 tr hn
+  have h1 : ∀ tr, NoPw tr → AfterLimiter ⟨referer, parseURL, urlHost, (kmU, kmNb, kmErr),
+      (ipU, ipNb, ipUserErr, ipErr), (bu, bp, bok), attemptLimit, reprocess, checkPassword, now, getAuthInfo, expired⟩
+      (k1 tr).2 := by
+    intro tr hn
+    unfold k1
+    dsimp only
+    by_cases hA : (req &&& (32 ||| 512) != 0 && hasTLS) = true
+    · simp only [hA, if_true]
+      by_cases hCh : hasChains = true
+      · simp only [hCh, if_true]
+        by_cases h32 : (req &&& 32 != 0) = true
+        · simp only [h32, if_true]
+          repeat' split
+          all_goals first | exact (hn.fail _).after | exact h3 _ tr hn | exact h2 tr hn
+        · simp only [h32, Bool.false_eq_true, if_false]; exact h3 _ tr hn
+      · simp only [hCh, Bool.false_eq_true, if_false]; exact h2 tr hn
+    · simp only [hA, Bool.false_eq_true, if_false]; exact h2 tr hn
+  have hn0 : NoPw tr0 := by intro u p hm; simp [tr0] at hm
+  by_cases hm : (method != "GET".toList) = true
+  · simp only [hm, if_true]
+    by_cases hr : (decide (List.length ref > 0) && decide (host.length > 0)) = true
+    · simp only [hr, if_true]
+      by_cases he : (parseURL ref).2.isSome = true
+      · simp only [he, if_true]; exact (hn0.fail 400).after
+      · simp only [he, Bool.false_eq_true, if_false]
+        by_cases hh : (urlHost (parseURL ref).1 != host) = true
+        · simp only [hh, if_true]; exact (hn0.fail 401).after
+        · simp only [hh, Bool.false_eq_true, if_false]; exact h1 tr0 hn0
+    · simp only [hr, Bool.false_eq_true, if_false]; exact h1 tr0 hn0
+  · simp only [hm, Bool.false_eq_true, if_false]; exact h1 tr0 hn0
+
+/-- **the password backend is asked only after the global limiter let the attempt through** (C14), on the translated
+source of the whole of `checkAuth`: whenever it puts a question to the password backend, the question is about the
+Basic-auth user (normalised) and password of this request, the limiter was charged for that user earlier in the same
+call, and it answered "go on". -/
+theorem c14_go_backend_only_after_limiter (ext : CheckAuthExt) (method host : List Char) (hasTLS hasChains : Bool)
+    (cookies : List Cookie) (req : Nat) (u p : List Char)
+    (h : AuthEffect.passwordTried u p ∈ (KM.Gen.GoCheckAuth.checkAuth ext method host hasTLS hasChains cookies req).2) :
+    ∃ u0 ok, ext.basicAuth = (u0, p, ok) ∧ ext.attemptLimit u0 = none ∧ u = ext.reprocess u0 ∧
+      AuthEffect.limitCheck u0 ∈ (KM.Gen.GoCheckAuth.checkAuth ext method host hasTLS hasChains cookies req).2 :=
+  checkAuth_after_limiter ext method host hasTLS hasChains cookies req u p h
+
+end KM.PwLimitGo
